@@ -1,0 +1,56 @@
+//go:build verif
+
+// Verification hook for the raw-bytes cache of the handshake messages (add-only, compiled only with
+// -tags verif): a message is given another message_seq after it already holds an encoding.
+
+package dtlcp
+
+func verifNewMsg(typ uint8) handshakeMessage {
+	switch typ {
+	case typeClientHello:
+		return new(clientHelloMsg)
+	case typeServerHello:
+		return new(serverHelloMsg)
+	case typeHelloVerifyRequest:
+		return new(helloVerifyRequestMsg)
+	case typeCertificate:
+		return new(certificateMsg)
+	case typeServerKeyExchange:
+		return new(serverKeyExchangeMsg)
+	case typeCertificateRequest:
+		return new(certificateRequestMsg)
+	case typeServerHelloDone:
+		return new(serverHelloDoneMsg)
+	case typeCertificateVerify:
+		return new(certificateVerifyMsg)
+	case typeClientKeyExchange:
+		return new(clientKeyExchangeMsg)
+	case typeFinished:
+		return new(finishedMsg)
+	}
+	return nil
+}
+
+// VerifResequence decodes data as a message of type typ, gives it the message_seq seq and encodes
+// it: afterDecode is the encoding of the decoded message (which holds data as its cached encoding)
+// after setMessageSeq(seq); afterEncode is the same for a message that was decoded, encoded once
+// under its own number from its fields, and then renumbered.
+func VerifResequence(typ uint8, data []byte, seq uint16) (ok bool, afterDecode, afterEncode []byte, err error) {
+	m := verifNewMsg(typ)
+	if m == nil || !m.unmarshal(data) {
+		return false, nil, nil, nil
+	}
+	m.setMessageSeq(seq)
+	if afterDecode, err = m.marshal(); err != nil {
+		return true, nil, nil, err
+	}
+	m2 := verifNewMsg(typ)
+	m2.unmarshal(data)
+	m2.setMessageSeq(m2.getMessageSeq()) // drops the cached encoding: the next marshal builds it from the fields
+	if _, err = m2.marshal(); err != nil {
+		return true, afterDecode, nil, err
+	}
+	m2.setMessageSeq(seq)
+	afterEncode, err = m2.marshal()
+	return true, afterDecode, afterEncode, err
+}
